@@ -101,6 +101,31 @@ def main(tier):
                 ck.ok("R-C19-1", key, sample={"identity": "d%s/d%s == %s" % (base, var, jac), "geometry": g, "decided by": how})
             else:
                 ck.violation("R-C19-1", key, ir.locstr(fn(jac)), "%s is not the derivative of %s with respect to %s (%s)" % (jac, base, var, how))
+    # ---------------- R-C19-1 for the Culham geometry, modulo its tabulated radial profiles
+    # Delta, E, T, P are interpolated from tables the constructor integrates numerically; they stay uninterpreted functions
+    # of rho = r/Rmax, and Delta_prime, E_prime, T_prime, dP are TAKEN to be their derivatives (naming convention of the class;
+    # not decided).  What is decided: given that, the four Jacobian members are the partial derivatives of Fx, Fy.
+    g = "CulhamGeometry"
+    if g in prog.classes:
+        xi = sp.Symbol("xi", positive=True)
+        Df, Ef, Tf, Pf = (sp.Function(n) for n in ("Delta", "E", "T", "P"))
+        prime = lambda F: (lambda a: sp.Subs(sp.Derivative(F(xi), xi), xi, a))
+        opaque = {"Delta": Df, "E": Ef, "T": Tf, "P": Pf, "Delta_prime": prime(Df), "E_prime": prime(Ef), "T_prime": prime(Tf), "dP": prime(Pf)}
+        missing = [n for n in opaque if ("%s::%s" % (g, n)) not in prog.functions]
+        if missing:
+            raise ir.AnalysisBroken("anchor vanished: CulhamGeometry::%s" % missing[0])
+        fn = lambda m: prog.fn("%s::%s" % (g, m))
+        exc = {m: cas.evaluate(fn(m), S, P, {"Rmax": Rm}, opaque=opaque) for m in ("Fx", "Fy", "dFx_dr", "dFy_dr", "dFx_dt", "dFy_dt")}
+        for m in exc:
+            ck.analysed(fn(m))
+        for jac, base, var in (("dFx_dr", "Fx", r), ("dFy_dr", "Fy", r), ("dFx_dt", "Fx", th), ("dFy_dt", "Fy", th)):
+            key = "%s::%s" % (g, jac)
+            ck.instance("R-C19-1", key)
+            d = sp.simplify((sp.diff(exc[base], var) - exc[jac]).doit())
+            if d == 0:
+                ck.ok("R-C19-1", key, sample={"identity": "d%s/d%s == %s" % (base, var, jac), "geometry": g, "decided by": "sympy, profiles Delta/E/T/P uninterpreted, *_prime/dP taken as their derivatives"})
+            else:
+                ck.violation("R-C19-1", key, ir.locstr(fn(jac)), "%s is not the derivative of %s with respect to %s: the difference is %s (tabulated profiles uninterpreted; Delta_prime, E_prime, T_prime, dP taken as their derivatives)" % (jac, base, var, sp.sstr(d)[:200]))
     # ---------------- R-C19-2
     aj = sp.Symbol("alpha_jump", positive=True)
     coef_classes = sorted(c for c in prog.classes if c.endswith("Coefficients") and not c.startswith("DensityProfile"))
